@@ -465,9 +465,9 @@ RunLoop:
 				// underflow.
 				var done bool
 				if isPositive(step) {
-					done = numIsLessThan(stop, nextStart) || numIsLessThan(nextStart, start)
+					done = !numIsLessOrEqual(nextStart, stop) || numIsLessThan(nextStart, start)
 				} else {
-					done = numIsLessThan(nextStart, stop) || numIsLessThan(start, nextStart)
+					done = !numIsLessOrEqual(stop, nextStart) || numIsLessThan(start, nextStart)
 				}
 				if done {
 					nextStart = NilValue
@@ -512,9 +512,9 @@ RunLoop:
 				// set to nil.
 				var done bool
 				if isPositive(step) {
-					done, _ = isLessThan(stop, start)
+					done = !numIsLessOrEqual(start, stop)
 				} else {
-					done, _ = isLessThan(start, stop)
+					done = !numIsLessOrEqual(stop, start)
 				}
 				if done {
 					start = NilValue
